@@ -1,7 +1,7 @@
 """C14 - LL(1): FIRST / FOLLOW, the LL(1) verdict and the table-driven parser."""
 import weakref
 
-from vf import core
+from vf import core, values
 from vf.gen import cfg as gcfg
 from vf.ref import ll1 as rl
 from vf.props.cfgcommon import ref_of, word_values
@@ -306,6 +306,8 @@ def run_case(c, stats):
                 words.add(w + (t,))
             words.add(w[:-1])
         words.add(("zz_foreign",))
+        nforms = 0
         for w in sorted(words, key=lambda x: (len(x), x)):
-            call(p.get_llone_parse_tree, list(w))
+            call(p.get_llone_parse_tree, values.word_form(w, len(w) + nforms))
+            nforms += 1
     return len(ref.prods) >= 2 and bool(L)
